@@ -199,8 +199,14 @@ def rule_T7(ctx):
     for s_, lv, op, rhs in stores(f.body):
         if not (lv["k"] == "sub" or (lv["k"] == "un" and lv["op"] == "*")):
             continue
-        if rhs is None or not any(is_call(x, ("toupper", "tolower")) or (x["k"] == "bin" and x["op"] == "^")
-                                  for x in walk(rhs)):
+        def changes_case(x):
+            if is_call(x, ("toupper", "tolower")) or (x["k"] == "bin" and x["op"] == "^"):
+                return True
+            if x["k"] == "call" and x.get("fn"):
+                h_ = prog.resolve(f, x["fn"])
+                return h_ is not None and h_.file == f.file and any(True for _ in h_.calls(("toupper", "tolower")))
+            return False
+        if rhs is None or not any(changes_case(x) for x in walk(rhs)):
             continue
         n += 1
         okg = False
@@ -302,8 +308,16 @@ def rule_S7(ctx):
     ctx.begin("S7", floor=1, what="nesting of stored command text")
     prog = ctx.prog
     f = prog.func("ex_command", file="ex.c")
-    cfg = f.cfg
     calls = list(f.calls("ex_exec"))
+    if not calls:
+        # the nesting limit may live in a helper of the file that ex_command calls
+        for c_ in f.calls():
+            h_ = prog.resolve(f, c_["fn"]) if c_.get("fn") else None
+            if h_ is not None and h_.file == f.file and h_ is not f and any(True for _ in h_.calls("ex_exec")):
+                f = h_
+                calls = list(f.calls("ex_exec"))
+                break
+    cfg = f.cfg
     if not calls:
         raise AnalysisBroken("ex_command does not call ex_exec")
     # is there a cycle at all?  (a handler that calls ex_command back)
